@@ -274,19 +274,92 @@ class Engine:
             return self.pred_cache[f['id']]
         ok = False
         ps = f.get('params', [])
-        if len(ps) == 1 and self.var_kind(ps[0]['ct']) == 'chr':
+        ts = self.pred_true_set(f)
+        if ts is not None:
+            ok = 0 not in ts
+        elif len(ps) == 1 and self.var_kind(ps[0]['ct']) == 'chr':
             outs = self.summ(f, fz({('h', ps[0]['id']): 'Z'}))
             ok = bool(outs) and all(ret is False for (_, ret, _) in outs)
         self.pred_cache[f['id']] = ok
         return ok
 
+    def lit_bytes(self, e, depth=0):
+        """bytes (without the terminator) of a string constant: a literal, or a const pointer / const array variable initialised with one"""
+        tu = self.tu
+        e = tu.strip(e, casts=True)
+        if e is None or depth > 3:
+            return None
+        if e.get('kind') == 'StringLiteral':
+            try:
+                import ast as pyast
+                v = pyast.literal_eval(e.get('value', '""'))
+                return tuple(ord(c) & 0xff for c in v) if isinstance(v, str) else tuple(v)
+            except Exception:
+                return None
+        if e.get('kind') == 'DeclRefExpr':
+            d = tu.node(e.get('referencedDecl', {}).get('id'))
+            if d is not None and d.get('kind') == 'VarDecl' and tu.kids(d):
+                qt = d.get('type', {}).get('qualType', '')
+                if re.match(r'^const char \*const$', qt) or re.match(r'^const char ?\[\d*\]$', qt) or (d.get('constexpr') and 'char' in qt):
+                    init = [k_ for k_ in tu.kids(d) if not k_.get('kind', '').endswith('Comment')]
+                    return self.lit_bytes(init[-1], depth + 1) if init else None
+        return None
+
+    def nul_true_note(self, f):
+        """names the character predicates called in f that are true for the NUL byte (they cannot justify an advance)"""
+        tu = self.tu
+        names = []
+        for x in tu.walk(tu.body(f) or {}):
+            if x.get('kind') == 'CallExpr':
+                cf = tu.callee_fn(x)
+                if cf is not None and tu.body(cf) is not None:
+                    ts = self.pred_true_set(cf)
+                    if ts is not None and 0 in ts and cf['q'].split('::')[-1] not in names:
+                        names.append(cf['q'].split('::')[-1])
+        if not names:
+            return ''
+        return ' (note: the predicate %s is also true for the NUL byte - strchr() finds the terminator of its set - so a successful test ' \
+               'does not show that the cursor stands on a byte of the file)' % ', '.join('`%s`' % x for x in names)
+
     def pred_true_set(self, f):
-        """set of bytes for which a user predicate `bool p(char c) { return c == k1 || c == k2 ...; }` is true, else None"""
+        """set of bytes for which a user predicate `bool p(char c)` is true, else None.  Forms: `c == k1 || c == k2 ...`;
+        `strchr(SET, c) != nullptr` (also true for the NUL byte: strchr finds the terminator of SET); `memchr(SET, c, n) != nullptr`"""
         key = ('trueset', f['id'])
         if key in self.pred_cache:
             return self.pred_cache[key]
         tu = self.tu
         res = None
+        ps0 = f.get('params', [])
+        body0 = tu.body(f)
+        if len(ps0) == 1 and self.var_kind(ps0[0]['ct']) == 'chr' and body0 is not None:
+            ks0 = tu.kids(body0)
+            if len(ks0) == 1 and ks0[0].get('kind') == 'ReturnStmt' and tu.kids(ks0[0]):
+                x = tu.strip(tu.kids(ks0[0])[0], casts=True)
+                neg = False
+                if x is not None and x.get('kind') == 'BinaryOperator' and x.get('opcode') in ('!=', '=='):
+                    L, R = tu.kids(x)
+                    for a, b in ((L, R), (R, L)):
+                        b0 = tu.strip(b, casts=True)
+                        if b0 is not None and (b0.get('kind') in ('CXXNullPtrLiteralExpr', 'GNUNullExpr') or
+                                               (b0.get('kind') == 'IntegerLiteral' and b0.get('value') == '0')):
+                            neg = (x['opcode'] == '==')
+                            x = tu.strip(a, casts=True)
+                            break
+                if x is not None and x.get('kind') == 'CallExpr' and not neg:
+                    q = tu.sd(x).get('q', '').split('::')[-1]
+                    args = tu.call_parts(x)[2]
+                    if q == 'strchr' and len(args) == 2 and tu.ref_decl(args[1]) == ps0[0]['id']:
+                        lb = self.lit_bytes(args[0])
+                        if lb is not None:
+                            res = frozenset(lb) | {0}
+                    elif q == 'memchr' and len(args) == 3 and tu.ref_decl(args[1]) == ps0[0]['id']:
+                        lb = self.lit_bytes(args[0])
+                        n = self.const_of(args[2])
+                        if lb is not None and n is not None and 0 <= n <= len(lb) + 1:
+                            res = frozenset((lb + (0,))[:n])
+        if res is not None:
+            self.pred_cache[key] = res
+            return res
         ps = f.get('params', [])
         body = tu.body(f)
         if len(ps) == 1 and self.var_kind(ps[0]['ct']) == 'chr' and body is not None:
@@ -562,7 +635,7 @@ class Engine:
                             if K < 1:
                                 eng.finding('R-C16-1', f, 'advance-past-nul:%s' % nm,
                                             '`++%s` is executed although `%s[0]` is not known to be non-NUL on this path: '
-                                            'at the terminating NUL the cursor leaves the buffer' % (nm, nm), n)
+                                            'at the terminating NUL the cursor leaves the buffer%s' % (nm, nm, eng.nul_true_note(f)), n)
                             st[('c', v)] = (max(K - 1, 0), 1 if (A or N0) else 0, 0, 0, ())
                             eng.le_forward(st, v)
                         else:
@@ -596,13 +669,9 @@ class Engine:
                         q = tu.sd(rhs).get('q', '').split('::')[-1]
                         args = tu.call_parts(rhs)[2]
                         if q in ('strspn', 'strcspn') and len(args) == 2 and eng.decl_of(args[0])[0] == v:
-                            lit = tu.strip(args[1], casts=True)
-                            if lit is not None and lit.get('kind') == 'StringLiteral':
-                                try:
-                                    import ast as pyast
-                                    span = (q, tuple(sorted(set(ord(ch) for ch in pyast.literal_eval(lit.get('value', '""'))))))
-                                except Exception:
-                                    span = None
+                            lb = eng.lit_bytes(args[1])
+                            if lb is not None:
+                                span = (q, tuple(sorted(set(lb))))
                     if span is not None:
                         # s += strspn(s, set): skips bytes of the set and stops at the first other byte (the NUL is never in the set);
                         # s += strcspn(s, set): stops at the NUL or at the first byte of the set.  Neither passes the terminator.
@@ -980,13 +1049,46 @@ def check_readxml(ctx, tu):
                                     return n, v
         return None, None
 
-    def data_of(e):
-        """decl id of the vector whose .data() / &v[0] the expression is"""
+    def data_of(e, off=None):
+        """decl id of the vector whose .data() / &v[0] the expression is; with `off` (a list) also `v.data() + k` for a variable k,
+        whose declaration id is appended to off"""
         e = tu.strip(e, casts=True)
         if e is not None and e.get('kind') == 'CXXMemberCallExpr' and tu.sd(e).get('q', '').endswith('::data'):
             s_, obj, _ = tu.call_parts(e)
             v, nm = eng0.decl_of(obj)
             return v
+        if off is not None and e is not None and e.get('kind') == 'BinaryOperator' and e.get('opcode') == '+':
+            l, r = tu.kids(e)
+            v = data_of(l)
+            k, _ = eng0.decl_of(r)
+            if v is not None and k is not None:
+                off.append(k)
+                return v
+        return None
+
+    def fread_loop_exit(call):
+        """None if the fread call is not inside a loop; else (loop, True/False): does the loop have an exit that does not depend on
+        fread delivering bytes - a break / return / throw / goto in its body, or a condition that tests the result of the call itself or
+        feof / ferror?"""
+        cur = tu.par(call)
+        inner = call
+        while cur is not None and cur.get('kind') not in ('FunctionDecl', 'CXXMethodDecl', 'LambdaExpr'):
+            if cur.get('kind') in ('WhileStmt', 'ForStmt', 'DoStmt'):
+                body_exit = any(x.get('kind') in ('BreakStmt', 'ReturnStmt', 'CXXThrowExpr', 'GotoStmt') for x in tu.walk(cur))
+                raw = cur.get('inner', [])
+                cond = None
+                if cur.get('kind') == 'WhileStmt' and len(tu.kids(cur)) >= 2:
+                    cond = tu.kids(cur)[-2]
+                elif cur.get('kind') == 'DoStmt' and tu.kids(cur):
+                    cond = tu.kids(cur)[-1]
+                elif cur.get('kind') == 'ForStmt' and len(raw) == 5 and raw[2].get('kind'):
+                    cond = raw[2]
+                cond_exit = cond is not None and any(
+                    x is call or (x.get('kind') == 'CallExpr' and tu.sd(x).get('q', '') in ('feof', 'ferror', 'feof_unlocked', 'ferror_unlocked'))
+                    for x in tu.walk(cond))
+                return cur, (body_exit or cond_exit)
+            inner = cur
+            cur = tu.par(cur)
         return None
 
     # the function that builds the buffer: readXML itself or a helper it calls whose result initialises the parsed vector
@@ -1032,14 +1134,31 @@ def check_readxml(ctx, tu):
                 continue
             q = tu.sd(n).get('q', '')
             args = tu.call_parts(n)[2]
-            if q in ('fread', 'fread_unlocked') and len(args) == 4 and data_of(args[0]) == bufvar['id']:
+            offs = []
+            if q in ('fread', 'fread_unlocked') and len(args) == 4 and data_of(args[0], offs) == bufvar['id']:
                 nread += 1
                 vs = []
                 for a in (args[1], args[2]):
                     v, nm = eng0.decl_of(a)
                     c = tu.sd(tu.strip(a, casts=True)).get('cv')
+                    if v is None and offs:
+                        # `numBytes - off` for a read that starts at data() + off
+                        a0 = tu.strip(a, casts=True)
+                        if a0 is not None and a0.get('kind') == 'BinaryOperator' and a0.get('opcode') == '-':
+                            l_, r_ = tu.kids(a0)
+                            if eng0.decl_of(l_)[0] == sizevar and eng0.decl_of(r_)[0] == offs[0]:
+                                v = sizevar
                     vs.append((v, c))
                 okb = ((vs[0][1] == '1' and vs[1][0] == sizevar) or (vs[1][1] == '1' and vs[0][0] == sizevar))
+                lp = fread_loop_exit(n)
+                if lp is not None:
+                    if lp[1]:
+                        ctx.ok(R3, inst + ': fread loop', 'the read loop has an exit that does not depend on fread delivering bytes', tu.loc(lp[0]))
+                    else:
+                        ctx.violation(R3, inst + ': fread loop', 'fread is retried in a loop whose only exit is the byte count reaching numBytes: '
+                                      'fread returns 0 at end of file and on a read error, so a file that yields fewer bytes than ftell '
+                                      'reported (truncated meanwhile, a pseudo file, an I/O error) makes readXML spin forever', tu.loc(lp[0]),
+                                      key='%s|%s|readXML|fread-loop-no-exit' % (R3, XML_FILE))
                 if okb:
                     ctx.ok(R3, inst + ': fread', 'at most numBytes bytes are read into the numBytes+1 buffer', tu.loc(n))
                 else:
@@ -2558,6 +2677,195 @@ def check_tokens_and_order(ctx, tu):
                tu.fn_loc(fs[0]), nontrivial=False)
 
 
+# ============================================================================================
+#  R-C16-13: where one comment is accepted, any number of comments is accepted
+# ============================================================================================
+def _fn_mentions_char(tu, f, ch, depth=1):
+    body = tu.body(f)
+    if body is None:
+        return False
+    for x in tu.walk(body):
+        if x.get('kind') == 'CharacterLiteral' and int(x.get('value', -1)) == ch:
+            return True
+        if depth > 0 and x.get('kind') == 'CallExpr':
+            cf = tu.callee_fn(x)
+            if cf is not None and cf['id'] != f['id'] and tu.fn_file(cf).startswith('rkcommon/') and _fn_mentions_char(tu, cf, ch, depth - 1):
+                return True
+    return False
+
+
+def _is_ws_skipper(tu, cf):
+    """the function only steps its by-reference cursor over whitespace: scan loops whose condition is true for whitespace bytes only, or
+    `s += strspn(s, SET)` with a whitespace SET; it never throws"""
+    cp = _cursor_param(cf)
+    body = tu.body(cf)
+    if cp is None or body is None or not cp['ct'].rstrip().endswith('&') or any(x.get('kind') == 'CXXThrowExpr' for x in tu.walk(body)):
+        return False
+    sts = [x for x in tu.kids(body) if x.get('kind') != 'NullStmt']
+    if not sts:
+        return False
+    eng = Engine(tu, None)
+    for st in sts:
+        st0 = tu.strip(st) or st
+        T = _scan_loop(tu, st0, cp['id'])
+        if T is not None and T and T <= WS_BYTES:
+            continue
+        if st0.get('kind') == 'CompoundAssignOperator' and st0.get('opcode') == '+=' and tu.ref_decl(tu.kids(st0)[0]) == cp['id']:
+            rhs = tu.strip(tu.kids(st0)[1], casts=True)
+            if rhs is not None and rhs.get('kind') == 'CallExpr' and tu.sd(rhs).get('q', '').split('::')[-1] == 'strspn':
+                lb = eng.lit_bytes(tu.call_parts(rhs)[2][1])
+                if lb is not None and set(lb) <= WS_BYTES:
+                    continue
+        return False
+    return True
+
+
+def check_comment_repetition(ctx, tu):
+    R = 'R-C16-13'
+    ctx.describe(R, 'wherever the reader accepts a comment it accepts a run of comments: on every path from a successful comment skip to the '
+                    'next parse action on the cursor (a call that may consume input other than whitespace, a step of the cursor) the comment '
+                    'skipper is tried again; helpers that wrap the skipper are followed')
+    fs = tu.fns(q='rkcommon::xml::readXML')
+    if len(fs) != 1:
+        ctx.broken('%s: readXML not found' % R)
+        return
+    fns = [f for f in reachable_fns(tu, fs[0]) if tu.fn_file(f).startswith('rkcommon/')]
+    byid = {f['id']: f for f in fns}
+    skippers = set()
+    for f in fns:
+        cp = _cursor_param(f)
+        if cp is not None and cp['ct'].rstrip().endswith('&') and f['fty'].startswith('bool') and len(f.get('params', [])) == 1 \
+                and _fn_mentions_char(tu, f, ord('!')) and _fn_mentions_char(tu, f, ord('<'), 0):
+            skippers.add(f['id'])
+    if not skippers:
+        ctx.ok(R, 'xml::readXML call graph', 'no comment skipper (bool f(char *&) testing for `<!`) among the %d functions' % len(fns),
+               tu.fn_loc(fs[0]), nontrivial=False)
+        return
+    ws = {f['id'] for f in fns if _is_ws_skipper(tu, f)}
+
+    def calls_skipper(f, seen=()):
+        for x in tu.walk(tu.body(f) or {}):
+            if x.get('kind') == 'CallExpr':
+                cf = tu.callee_fn(x)
+                if cf is None:
+                    continue
+                if cf['id'] in skippers:
+                    return True
+        return False
+    wrappers = {f['id'] for f in fns if f['id'] not in skippers and calls_skipper(f) and _cursor_param(f) is not None}
+    findings = {}
+
+    def run(f, pend0, depth, top=None):
+        top = top or f
+        """explores f from `pending = pend0`; returns the set of pending values at its exits"""
+        g = tu.cfg(f)
+        cp = _cursor_param(f)
+        if g is None or cp is None:
+            return {pend0}
+        S = cp['id']
+
+        def cursor_arg(n):
+            args = tu.call_parts(n)[2]
+            return any(tu.ref_decl(a) == S for a in args)
+
+        def transfer(blk, i, el, st):
+            if el[0] != 'S':
+                return [st]
+            n = tu.node(el[1])
+            if n is None:
+                return [st]
+            pend, last = st
+            k = n.get('kind')
+            if k == 'CallExpr':
+                cf = tu.callee_fn(n)
+                if cf is not None and cf['id'] in skippers and cursor_arg(n):
+                    return [(1, (n['id'], True)), (0, (n['id'], False))]
+                if cf is not None and cf['id'] in ws and cursor_arg(n):
+                    return [st]
+                if cf is not None and cf['id'] in wrappers and cursor_arg(n) and depth < 3 and cf['id'] != f['id']:
+                    return [(p2, None) for p2 in sorted(run(cf, pend, depth + 1, top))]
+                if cursor_arg(n):
+                    if pend:
+                        findings.setdefault((top['id'], n['id']), (top, n))
+                    return [(0, None)]
+                return [st]
+            if k in ('UnaryOperator', 'CompoundAssignOperator') and n.get('opcode') in ('++', '+=') and tu.ref_decl(tu.kids(n)[0]) == S:
+                if pend:
+                    findings.setdefault((top['id'], n['id']), (top, n))
+                return [(0, None)]
+            return [st]
+
+        def not_a_comment(cnode, taken):
+            """the branch outcome shows that the cursor does not stand on `<!`: `*s == c` / `s[1] == c` and their negations"""
+            c = tu.strip(cnode, casts=True)
+            if c is not None and c.get('kind') == 'BinaryOperator' and c.get('opcode') in ('&&', '||'):
+                # the block that ends in the whole `A && B` has just evaluated B (A was decided in an earlier block)
+                L, Rr = tu.kids(c)
+                if (c['opcode'] == '&&') == taken:
+                    return not_a_comment(L, taken) or not_a_comment(Rr, taken)
+                return not_a_comment(Rr, taken)
+            if c is None or c.get('kind') != 'BinaryOperator' or c.get('opcode') not in ('==', '!='):
+                return False
+            L, Rr = tu.kids(c)
+            for a, b in ((L, Rr), (Rr, L)):
+                a0 = tu.strip(a, casts=True)
+                b0 = tu.strip(b, casts=True)
+                if a0 is None or b0 is None or b0.get('kind') not in ('CharacterLiteral', 'IntegerLiteral'):
+                    continue
+                idx = None
+                if _is_cur_read(tu, a0, S):
+                    idx = 0
+                elif a0.get('kind') == 'ArraySubscriptExpr' and tu.ref_decl(tu.kids(a0)[0]) == S:
+                    i0 = tu.strip(tu.kids(a0)[1], casts=True)
+                    if i0 is not None and i0.get('kind') == 'IntegerLiteral' and int(i0.get('value')) == 1:
+                        idx = 1
+                if idx is None:
+                    continue
+                val = int(b0.get('value')) & 0xff
+                equal = (c['opcode'] == '==') == taken
+                lead = ord('<') if idx == 0 else ord('!')
+                return (equal and val != lead) or ((not equal) and val == lead)
+            return False
+
+        def refine(blk, si, st):
+            if blk.cond is None or len(blk.succ) != 2:
+                return [st]
+            if st[0] and not_a_comment(tu.node(blk.cond), si == 0):
+                return [(0, st[1])]
+            if st[1] is None:
+                return [st]
+            c = tu.strip(tu.node(blk.cond), casts=True)
+            neg = False
+            while c is not None and c.get('kind') == 'UnaryOperator' and c.get('opcode') == '!':
+                neg = not neg
+                c = tu.strip(tu.kids(c)[0], casts=True)
+            if c is None or c.get('id') != st[1][0]:
+                return [st]
+            val = st[1][1] != neg
+            return [st] if val == (si == 0) else []
+
+        res = g.explore([(pend0, None)], transfer, refine)
+        return {s_[0] for (s_, via) in res.exits if not g.blocks[via].noret} or {pend0}
+
+    n = 0
+    for f in fns:
+        if f['id'] in skippers or not (calls_skipper(f) or any(
+                x.get('kind') == 'CallExpr' and (tu.callee_fn(x) or {}).get('id') in wrappers for x in tu.walk(tu.body(f) or {}))):
+            continue
+        before = set(findings)
+        run(f, 0, 0)
+        n += 1
+        new = [findings[k_] for k_ in findings if k_ not in before]
+        inst = f['q'].replace('rkcommon::', '')
+        if not new:
+            ctx.ok(R, inst, 'after a skipped comment the skipper is tried again before anything else is parsed', tu.fn_loc(f))
+    for (fid, nid), (f, nd) in sorted(findings.items(), key=lambda kv: tu.loc(kv[1][1])):
+        inst = f['q'].replace('rkcommon::', '')
+        ctx.violation(R, inst, 'after a comment has been skipped the parser goes on to `%s` without trying for another comment: a second comment '
+                      'in a row (allowed wherever one comment is) is taken for a node / content and the document is rejected or misread'
+                      % tu.show(nd)[:60], tu.loc(nd), key='%s|%s|%s|single-comment' % (R, tu.fn_file(f), inst))
+
+
 def run(ctx):
     ctx.assume('the buffer handed to parseXML is NUL-terminated (established by R-C16-3 for readXML)')
     ctx.assume('library character predicates (isalpha, isdigit, isspace) return false for the NUL byte')
@@ -2572,6 +2880,7 @@ def run(ctx):
     check_buffers(ctx, tu)
     check_trim(ctx, tu)
     check_tokens_and_order(ctx, tu)
+    check_comment_repetition(ctx, tu)
     check_positive_examples(ctx)
     from rkstatic import selftest
     selftest.run(ctx)
